@@ -394,6 +394,7 @@ func (s *sched) Abandon(force func(), registered func() bool, hopeless bool) {
 	done := make(chan struct{})
 	go func() { s.wg.Wait(); close(done) }()
 	wakes := 0 // times force() found the sleeper parked
+	start, cpu0, runSeen := time.Now(), cpuTime(), 0
 	for i := 0; ; i++ {
 		select {
 		case <-done:
@@ -430,6 +431,28 @@ func (s *sched) Abandon(force func(), registered func() bool, hopeless bool) {
 				if atomic.LoadInt32(&w.exited) == 0 && !registered() && goroutineParkedInSleep(w.goid) && !registered() {
 					hopeless = true
 				}
+			}
+		}
+		if i%100 == 99 && !hopeless && time.Since(start) > 2*time.Second {
+			// a released worker that keeps running (a step is a few instructions) spins inside the code under
+			// test: leak it, and count it so that the driver stops before the machine is full of them
+			running := false
+			for _, w := range s.workers {
+				if atomic.LoadInt32(&w.exited) == 0 && goroutineStatus(w.goid) == "running" {
+					running = true
+				}
+			}
+			if running {
+				runSeen++
+			} else {
+				runSeen = 0
+			}
+			if runSeen >= 4 && cpuTime()-cpu0 >= time.Second {
+				spinLeaks++
+				if spinLeaks >= maxSpinLeaks {
+					aborted = true
+				}
+				hopeless = true
 			}
 		}
 		if wakes > 60 {
